@@ -69,12 +69,14 @@ def make_check(arc, line):
             if op in seen and seen[op] != r:
                 return f"call {op} answered {seen[op]!r} earlier and {r!r} later in the same sequence (a failed call must change nothing)"
             seen.setdefault(op, r)
-            if op[0] in "re" and not r.startswith("err") and r != "lzh":
+            if op[0] in "re" and not r.startswith("err"):
+                # (an LZH member's extraction is reported as "lzh": its decoded bytes belong to C04, but the stored block it was
+                # decoded from must lie inside the file all the same — a short block must be refused, not decoded)
                 ext = V.recorded_extent(arc, int(op[1:]))
                 if ext is None: return f"call {op} delivered {r!r} but the archive's records for it are not inside the file"
                 start, ln = ext
                 if start + ln > len(arc): return f"call {op} delivered {r!r} although the recorded extent [{start},{start + ln}) exceeds the file ({len(arc)} bytes)"
-                if r != V.show(arc[start:start + ln]): return f"call {op} delivered {r!r}, the file bytes at the recorded extent are {V.show(arc[start:start + ln])!r}"
+                if r != "lzh" and r != V.show(arc[start:start + ln]): return f"call {op} delivered {r!r}, the file bytes at the recorded extent are {V.show(arc[start:start + ln])!r}"
         return None
     return chk
 
